@@ -52,7 +52,7 @@ CHECKS.update({
         "quick": T(50000, 60), "thorough": T(2000000, 900),
         "rule": "one run = generated world + config bytes (structured generator, byte-level mutation of it, or boundary-directed: tag lengths 95..900, message = limit-1/0/+1, output ':' forms, short syslog names, huge numbers, ident/path near their limits, 1 MiB limits, lines around 1024 bytes) + 1-2 wrapped execs under ASan+UBSan in both builds, and an 8 % share of the seeds once more with the uninstrumented library under valgrind memcheck (uninitialised values, which ASan does not see); "
                 "oracle = sanitizer report, fatal signal, step cap / watchdog, exec not reached; non-trivial = non-empty config; distinct = (options present, tag-count bucket, boundary probe, env/tty class, size bucket)",
-        "probes": ["tag_ge_100", "msg_eq_limit", "environ_null", "limit_1mib", "line_ge_1024", "output_colon", "short_syslog_name", "huge_number", "ident_near_256", "path_near_max", "errlog_at_limit", "login_at_buffer_size", "record_ge_4096"],
+        "probes": ["tag_ge_100", "msg_eq_limit", "environ_null", "limit_1mib", "line_ge_1024", "output_colon", "short_syslog_name", "huge_number", "ident_near_256", "path_near_max", "errlog_at_limit", "login_at_buffer_size", "record_ge_4096", "thread_with_1mib_stack"],
         "assumptions": ["no schedule or fault dimension: seeded generation against a sanitizer oracle inside the simulated OS (weak fit, DESIGN 3/C02)"],
     },
     "C05": {
@@ -89,7 +89,7 @@ CHECKS.update({
     "C12": {
         "variants": ["asan-ts"], "level": "exploration",
         "quick": T(20000, 45), "thorough": T(500000, 600),
-        "rule": "one run = generated simulated process state (independent real/effective uid/gid, name tables with gaps, session, ancestor chain, tty none/closed/present with owner, login fallbacks, environment incl. TZ, cwd, host, instant) + two execs whose formats list every data source named in the statement inside <name=...> delimiters; "
+        "rule": "one run = generated simulated process state (independent real/effective uid/gid, name tables with gaps and with entries of 0.3-70 KB - long member lists, long GECOS fields: the lookup functions answer ERANGE to a buffer that is too small -, working directories up to 6000 bytes, session, ancestor chain, tty none/closed/present with owner, login fallbacks, environment incl. TZ, cwd, host, instant) + two execs whose formats list every data source named in the statement inside <name=...> delimiters; "
                 "each text compared with the value derived from the world; distinct = vector of world classes",
         "probes": ["all_ids_distinct", "id_without_name", "no_tty", "ebadf", "deleted_cwd", "tz_non_utc", "secure_exec_mode", "child_of_init"],
         "assumptions": ["the kernel is a stub: this decides that each data source asks the right question and renders the answer, not that Linux answers correctly"],
